@@ -83,8 +83,8 @@ REMOVE_OVERLAPS = dict(
         assert forall|i: int, j: int| 0 <= i < j < sorted.len() implies (#[trigger] sorted[i]).span.start <= (#[trigger] sorted[j]).span.start by {
             assert(spec_le(sort_key::<Lint, (usize, usize)>(sorted[i]), sort_key::<Lint, (usize, usize)>(sorted[j])));
         }'''),
-        dict(before='if lint.span.start < cur', kind='ghost', text='let ghost before = remove_indices@;'),
-        dict(before='continue;', text='''
+        dict(before='if lint', kind='ghost', text='let ghost before = remove_indices@;'),
+        dict(after='remove_indices.', text='''
                 assert(remove_indices@ == before.push(i));
                 lemma_push_contains(before, i);
                 assert(last >= 0);
